@@ -63,6 +63,7 @@ def fuzz_phase(run, drv, binary, seconds, prop):
     corpus = os.path.join(fdir, "corpus", f"doc-{prop}")
     art = os.path.join(fdir, "artifacts", f"doc-{prop}")
     shutil.rmtree(art, ignore_errors=True)
+    shutil.rmtree(os.path.join(fdir, "artifacts", "doc"), ignore_errors=True)
     os.makedirs(art, exist_ok=True)
     os.makedirs(corpus, exist_ok=True)
     p = subprocess.run([binary, "dump-corpus", corpus, str(run.seed), "1500"], cwd=drv.VERIF, env=drv.env_offline(), stdout=subprocess.PIPE, text=True)
@@ -99,7 +100,10 @@ def fuzz_phase(run, drv, binary, seconds, prop):
         run.inconclusive.append(f"[fuzz] no executions recorded: {out[-400:]}")
     fbin = os.path.join(fdir, "target", TARGET, "release", "doc")
     seen = set()
-    for path in sorted(glob.glob(os.path.join(art, "*"))):
+    # cargo-fuzz passes its own -artifact_prefix first; libFuzzer honours the last one given, but
+    # look in both places
+    default_art = os.path.join(fdir, "artifacts", "doc")
+    for path in sorted(glob.glob(os.path.join(art, "*")) + glob.glob(os.path.join(default_art, "*"))):
         kind = os.path.basename(path).split("-")[0]
         # judge the kept input with the plain harness first (names the oracle that fired)
         q = subprocess.run([binary, "file", prop, path], cwd=drv.VERIF, env=drv.env_offline(), stdout=subprocess.PIPE, stderr=subprocess.PIPE, text=True, errors="replace")
